@@ -5537,6 +5537,7 @@ impl BytecodeVM {
                                 | JsFunction::PromiseAllFulfill { .. }
                                 | JsFunction::PromiseAllReject(_)
                                 | JsFunction::PromiseRaceSettle { .. }
+                                | JsFunction::PromiseAllSettledSettle { .. }
                                 | JsFunction::AccessorGetter
                                 | JsFunction::AccessorSetter
                                 | JsFunction::ModuleExportGetter { .. }
